@@ -688,7 +688,8 @@ static std::string defineTokens(const Strs& items, bool& unbalanced, bool& other
         UDQDefine def(udqp, "WUX", 0, loc, items, pc, errors);
         for (auto& t : def.tokens()) out += " " + tokProto(t);
     } catch (const std::invalid_argument& e) {
-        if (std::string(e.what()).rfind("Unbalanced quotes", 0) == 0) unbalanced = true; else other = true;
+        const std::string what = e.what();
+        if (what.rfind("Unbalanced quotes", 0) == 0 || what.rfind("Missing ']'", 0) == 0) unbalanced = true; else other = true;
     } catch (const std::exception&) { other = true; }
     errors.clear();
     return out;
@@ -948,6 +949,7 @@ int main(int argc, char** argv) {
                     items[p] = rng.pick(Strs{ " ", "\t", "" }) + items[p] + rng.pick(Strs{ " ", "  ", "\t" });
                 }
                 if (rng.coin(1, 25)) { size_t p = rng.below(items.size()); items[p] += "'"; }   // unbalanced quote
+                if (rng.coin(1, 25)) { items.push_back(rng.pick(Strs{ "+", "*" })); items.push_back("TU_FBHP"); if (rng.coin()) { items.push_back("["); items.push_back("FOPR"); } }   // table look-up without ']' 
                 bool unb = false, other = false;
                 std::string ans = defineTokens(items, unb, other);
                 if (other) { sink.count("lex.skipped"); continue; }
